@@ -360,10 +360,31 @@ func runC08(c *ctx) {
 			c08Eval(c, mkCase(r, toks, "soup", "layout", stats))
 		}
 	})
+	// texts with several diagnostics whose order of detection is not their order in the text (a size declaration is
+	// judged after the values that follow it; a duplicate name after the first use): every layout must keep the
+	// sequence of diagnostics
+	multi := [][]string{
+		{"S1F1", "W", "<", "U1", "[1]", "300", "2", ">", "."},
+		{"S1F1", "W", "<", "L", "[1]", "<", "U1", "300", ">", "<", "A", "[1]", "\"ab\"", ">", ">", "."},
+		{"S1F1", "W", "<", "A", "[2..3]", "\"a\"", "200", "300", ">", "."},
+		{"S1F1", "W", "<", "L", "<", "U1", "x", ">", "<", "U1", "x", ">", "<", "I1", "200", "-200", ">", ">", "."},
+		{"S1F1", "W", "<", "B", "[..1]", "256", "0b2", "1", ">", ".", "S2F2", "W", "<", "I2", "[3]", "40000", ">", "."},
+		{"S1F1", "W", "<", "L", "[0]", "<", "L", "[0]", "<", "F4", "[2]", "1e39", ">", ">", ">", "."},
+		{"S1F1", "W", "<", "U1", "300", "400", ">", "<", "U1", "300", ">", "."},
+		{"S1F2", "W", "H->E", "<", "BOOLEAN", "[1]", "T", "2", "F", ">", "."},
+	}
+	c.parallel(len(multi)*c.pick(150, 1500), func(i int, r *rng.R) {
+		var toks []smltext.Tok
+		for _, t := range multi[i%len(multi)] {
+			toks = append(toks, smltext.H(t))
+		}
+		c.Class("several-diagnostics-out-of-text-order")
+		c08Eval(c, mkCase(r, toks, "mutated", "layout", stats))
+	})
 	for k, v := range agg {
 		c.ClassN("layout/"+k, int64(v))
 	}
-	c.Required = []string{"move/layout/valid", "move/layout/mutated", "move/layout/soup", "move/layout/odd-literal", "move/case/odd-literal", "move/case/valid", "accepted", "with-errors", "layout/comment", "layout/comment-final-byte/0xa0", "layout/comment-final-byte/0x85", "layout/comment/final-without-eol", "layout/size-declaration-with-inner-line-break", "layout/gap-beyond-65536-columns-or-lines", "diagnostic-at/token", "diagnostic-at/end"}
+	c.Required = []string{"move/layout/valid", "move/layout/mutated", "move/layout/soup", "move/layout/odd-literal", "move/case/odd-literal", "move/case/valid", "accepted", "with-errors", "layout/comment", "layout/comment-final-byte/0xa0", "layout/comment-final-byte/0x85", "layout/comment/final-without-eol", "layout/size-declaration-with-inner-line-break", "layout/gap-beyond-65536-columns-or-lines", "diagnostic-at/token", "diagnostic-at/end", "several-diagnostics-out-of-text-order"}
 }
 
 func replayC08(c *ctx, raw json.RawMessage) {
